@@ -1,4 +1,5 @@
 import NanoVerif.Proofs.Sem
+import NanoVerif.Proofs.ReuseSeq
 /-
 C19 — Congruent copies of a shape are stored once (oracle-relative part).
 The recognition of congruent copies is picosvg's (`normalize` / `affine_between`): third party,
@@ -14,6 +15,11 @@ def outlineOf : SPaint → Option Nat
   | .glyph o _ => some o
   | .transform _ p => outlineOf p
   | .fill _ => none
+
+theorem outlineOf_eq : ∀ p : SPaint, outlineOf p = p.outline
+  | .glyph _ _ => rfl
+  | .transform _ p => by simp [outlineOf, SPaint.outline, outlineOf_eq p]
+  | .fill _ => rfl
 
 theorem outlineOf_wrap (T : Aff) (p : SPaint) : outlineOf (wrap T p) = outlineOf p := by
   unfold wrap; split <;> simp [outlineOf]
@@ -40,5 +46,44 @@ theorem only_disable_disables (tol : Q) (h : tol ≠ -1) (g : Nat) (t : Aff) (hs
   simp [tryReuse, h, hs]
 
 example : fixedSafe (Aff.composeLtr [Aff.id, (⟨0, 1, -1, 0, 100, 0⟩ : Aff).inverseEps eps]).toList = true := by decide +kernel
+
+
+/-- **C19.3 (the cache across a font)** whatever the oracle, the tolerance and the order of the inputs: once a PaintGlyph has been
+migrated, the cache entry of its normal form is the outline it was painted with — the donor it reused, or the outline drawn for it.
+(A shape that could NOT use the cached donor therefore becomes the donor for the copies that follow.) -/
+theorem registered_after (tol : Q) (between : Nat → ShapeIn → Option Aff) (st : MState) (s : ShapeIn) :
+    (migrateStep tol between st s).1.cache.lookup s.key = (migrateStep tol between st s).2.outline :=
+  step_registers tol between st s
+
+/-- **C19.4 (copies share one outline)** `s1 … mid … s2` with `s2` of the same normal form as `s1` and no shape of that normal form in
+between — in the same glyph or in later glyphs, however many other shapes intervene: if the oracle relates the outline `s1` was painted
+with to `s2` by an affine that fits 16.16 and `s2`'s fill can be expressed under it, `s2` is painted with that same outline and no
+glyph is created for it. -/
+theorem later_copy_shares (tol : Q) (between : Nat → ShapeIn → Option Aff) (st : MState) (s1 s2 : ShapeIn) (mid : List ShapeIn)
+    (hk : s2.key = s1.key) (hmid : ∀ s ∈ mid, s.key ≠ s1.key) (htol : tol ≠ -1) (o : Nat) (T : Aff)
+    (ho : (migrateStep tol between st s1).2.outline = some o) (hb : between o s2 = some T)
+    (hs : fixedSafe T.toList = true) (hm : (migrateReuse T o s2.child).isSome = true) :
+    let stm := (migrateAll tol between (migrateStep tol between st s1).1 mid).1
+    (migrateStep tol between stm s2).2.outline = some o ∧ (migrateStep tol between stm s2).1 = stm := by
+  intro stm
+  have hl : stm.cache.lookup s2.key = some o := by
+    rw [hk, all_other_keys tol between s1.key mid _ hmid, step_registers, ho]
+  exact step_reuses tol between stm s2 o T hl htol hb hs hm
+
+/-- with the cache turned off every shape gets its own outline -/
+theorem disabled_draws (between : Nat → ShapeIn → Option Aff) (st : MState) (s : ShapeIn) :
+    (migrateStep (-1) between st s).2 = .glyph st.next s.child := by
+  unfold migrateStep
+  cases st.cache.lookup s.key with
+  | none => rfl
+  | some d => simp [tryReuse, drawFresh]
+
+/-! non-vacuity: big donor (key 7), a tiny copy that cannot use it (the counter-transform of its gradient leaves 16.16), another tiny copy
+translated from the first: two outlines, the second and third paints share outline 1 -/
+example :
+    let between : Nat → ShapeIn → Option Aff := fun d _ => if d = 0 then some ⟨1/70000, 0, 0, 1/70000, 10, 10⟩ else some ⟨1, 0, 0, 1, 3, 4⟩
+    let g : SPaint := .fill (.linear ⟨⟨0, 0⟩, ⟨10, 0⟩, ⟨0, 10⟩⟩ 0)
+    ((migrateAll (1/10) between ⟨[], 0⟩ [⟨7, g⟩, ⟨7, g⟩, ⟨7, g⟩]).2.map SPaint.outline, (migrateAll (1/10) between ⟨[], 0⟩ [⟨7, g⟩, ⟨7, g⟩, ⟨7, g⟩]).1.next)
+      = ([some 0, some 1, some 1], 2) := by decide +kernel
 
 end NanoVerif.C19
